@@ -182,7 +182,6 @@ CHECKS = {
         "level": "exploration",
         # open findings: TxGet with an out-of-limit key drops the handle without rollback (D14);
         # Get/TxGet report every engine error as found=false
-        "env": {"VERIF_OFF": "reject_on_open_handle,engine_error_mapping"},
         "quick": {"shards": 16, "rounds": 2, "checks": 250, "timeout": 900},
         "thorough": {"shards": 16, "rounds": 10, "checks": 400, "timeout": 3000},
         "assumptions": [
